@@ -2,3 +2,6 @@ import DdsModel.Mach
 import DdsModel.Layout
 import DdsModel.Proofs.Layout
 import DdsModel.Theorems.C02
+import DdsModel.Split
+import DdsModel.Proofs.Split
+import DdsModel.Theorems.C14
